@@ -4,37 +4,37 @@ from cat.common import *
 _DB = 'src/interrogatedb/'
 _MAP_FROM = '_ZNK13IndexRemapper8map_fromEi'
 _US = {'ll_strlen.0': 6, 'll_memcmp.0': 6, 'll_memcpy.0': 48, 'll_memmove.0': 48, 'll_memmove.1': 48}
+_ASSERTS = ['-D_GLIBCXX_ASSERTIONS']
 
 
-def _remap(name, tus, desc, fields, quick, thorough=None):
-    b = {'quick': quick}
-    if thorough is not None:
-        b['thorough'] = thorough
+def _remap(name, tus, desc, fields, us=None):
+    # no large bound on the libc model loops unless a harness copies concrete multi-byte objects: a bound of 48 on a memcpy whose length is
+    # symbolic (std::string::assign of a 1-character name) costs minutes
     return dict(id='c11_remap_' + name, property='C11', src='c11_remap.cxx', entry='harness_c11_remap_' + name,
-                tus=[_DB + 'indexRemapper.cxx'] + [_DB + t for t in tus], cut=[_MAP_FROM],
-                desc=desc,
-                domain='index fields symbolic in [0, 2^30] (0 = no index), other scalars over all of int, vectors of length 0..NMAX; '
-                       'IndexRemapper::map_from replaced by the injective f(0)=0, f(i)=i+1000',
-                oracle='after remap_indices every index field (' + fields + ') equals f(old value), vector lengths are kept, and every '
-                       'non-index field (flags, values, names, comments) is unchanged',
-                bounds=b)
+                tus=[_DB + 'indexRemapper.cxx', _DB + 'interrogateComponent.cxx'] + [_DB + t for t in tus], cut=[_MAP_FROM],
+                tuflags=_ASSERTS, hflags=_ASSERTS, desc=desc,
+                domain='heap-allocated record; every index field and every other scalar over ALL of int, names/comments one symbolic character, '
+                       'every vector of symbolic length 0..VMAX with symbolic contents; IndexRemapper::map_from cut and replaced by the bijection '
+                       'f(0)=0, f(K)=K, f(x)=x^K for a symbolic key K over all of int (an unmapped index, in particular 0, stays itself as in the '
+                       'real map_from; K=0 is the identity remapper)',
+                oracle='after remap_indices every index field (' + fields + ') equals f(old value), vector lengths are kept, every non-index '
+                       'field (flags, values, names, comments, derivation/parameter flags, enum values) is unchanged, and only the remapper '
+                       'that was passed in is consulted',
+                bounds={'quick': dict(defs=dict(VMAX=2), unwind=5, unwindset=dict(us or {}), cap=600),
+                        'thorough': dict(defs=dict(VMAX=3), unwind=6, unwindset=dict(us or {}), cap=3000)})
 
 
 HARNESSES = [
  _remap('type', ['interrogateType.cxx'], 'InterrogateType::remap_indices',
         '_outer_class, _wrapped_type, _destructor, _constructors[], _elements[], _methods[], _casts[], _make_seqs[], _nested_types[], '
-        '_derivations[]._base/_upcast/_downcast',
-        dict(defs=dict(NMAX=2), unwind=5, unwindset=_US, cap=600), dict(defs=dict(NMAX=3), unwind=6, unwindset=_US, cap=3000)),
- _remap('function', ['interrogateFunction.cxx'], 'InterrogateFunction::remap_indices', '_class, _c_wrappers[], _python_wrappers[]',
-        dict(defs=dict(NMAX=2), unwind=5, unwindset=_US, cap=600), dict(defs=dict(NMAX=3), unwind=6, unwindset=_US, cap=3000)),
+        '_derivations[]._base/_upcast/_downcast', us={'ll_memcpy.0': 80, 'll_memmove.0': 80}),   # concrete 16-byte Derivation copies in resize()
+ _remap('function', ['interrogateFunction.cxx'], 'InterrogateFunction::remap_indices', '_class, _c_wrappers[], _python_wrappers[]'),
  _remap('wrapper', ['interrogateFunctionWrapper.cxx'], 'InterrogateFunctionWrapper::remap_indices',
-        '_function, _return_type, _return_value_destructor, _parameters[]._type',
-        dict(defs=dict(NMAX=2), unwind=5, unwindset=_US, cap=600), dict(defs=dict(NMAX=3), unwind=6, unwindset=_US, cap=3000)),
+        '_function, _return_type, _return_value_destructor, _parameters[]._type'),
  _remap('scalars', ['interrogateElement.cxx', 'interrogateManifest.cxx', 'interrogateMakeSeq.cxx'],
         'InterrogateElement / InterrogateManifest / InterrogateMakeSeq::remap_indices',
         'element: _type, _getter, _setter, _has_function, _clear_function, _del_function, _length_function, _insert_function, '
-        '_getkey_function; manifest: _type, _getter; make_seq: _length_getter, _element_getter',
-        dict(defs=dict(), unwind=5, unwindset=_US, cap=600)),
+        '_getkey_function; manifest: _type, _getter; make_seq: _length_getter, _element_getter'),
 ]
 
 HARNESSES += [
